@@ -722,6 +722,14 @@ impl Scenario for StakeScen {
             let open = self.claims(&hoarder).len();
             let st = self.staked(&hoarder);
             let r = rng.below(10);
+            if st <= 40 && r < 8 && self.bal(&hoarder) >= 500 {
+                // first a comfortable stake
+                return if cfg.native {
+                    format!("exec {hoarder} bond funds={STAKE_DENOM}:500")
+                } else {
+                    format!("send {hoarder} token={} amt=500 msg=bond", self.token)
+                };
+            }
             if st > 40 && open < 14 && r < 7 {
                 return format!("exec {hoarder} unbond amt={}", 1 + rng.below(3));
             }
